@@ -80,6 +80,7 @@ func vSameToks(a, b []vTok) bool {
 }
 
 type vSeqSpec struct {
+	keyPrefix bool // also run with other prefixes of the reserved keys (SetGlobalKeyMapPrefix)
 	depth, maxKids, maxAttrs int
 	nameAlpha                string
 	extras                   bool // comment / PI / directive
@@ -161,6 +162,10 @@ func vNondetSeqDoc(s vSeqSpec, depth int) (doc string, mixed bool) {
 
 func vC04(s vSeqSpec) {
 	vResetDecOpts()
+	if s.keyPrefix {
+		SetGlobalKeyMapPrefix([]string{"#", "%"}[vChoose(2)])
+		defer SetGlobalKeyMapPrefix("#")
+	}
 	doc, mixed := vNondetSeqDoc(s, s.depth)
 	want, okw := vRawTokens([]byte(doc))
 	vAssume(okw)
@@ -227,6 +232,6 @@ func H_C04_seq_attrs() {
 
 // comments, processing instructions and directives at every position among the children
 func H_C04_seq_extras() {
-	s := vSeqSpec{depth: vP("depth", 1, 2), maxKids: vP("kids", 2, 2), maxAttrs: vP("attrs", 0, 1), nameAlpha: "ab", extras: true, text: true}
+	s := vSeqSpec{depth: vP("depth", 1, 2), maxKids: vP("kids", 2, 2), maxAttrs: vP("attrs", 0, 1), nameAlpha: "ab", extras: true, text: true, keyPrefix: true}
 	vC04(s)
 }
